@@ -1,4 +1,4 @@
-from .checks import deps, pipeline, version
+from .checks import deps, pipeline, version, selfhost
 
 CHECKS = {
     "C05": lambda tier: deps.run_property("C05", tier),
@@ -7,4 +7,5 @@ CHECKS = {
     "C10": lambda tier: pipeline.run_c10(tier),
     "C16": lambda tier: deps.run_c16(tier),
     "C18": lambda tier: version.run_c18(tier),
+    "C19": lambda tier: selfhost.run_c19(tier),
 }
